@@ -41,12 +41,23 @@ static Integrator* makeIntegrator(int k, const System& sys) {
     default: return new SemiExplicitEuler2Integrator(sys);
     }
 }
-// Measured on the clean tree (seeds 1..40, see notes/C11.md): worst normalised drift per integrator; the bounds
-// printed in the P lines are these x 10.
-struct Consts { double energy, momentum, monotone; };
+// Measured on the clean tree (seeds 1..40 x 300 trajectories, 2026-09-22, see notes/C11.md): worst normalised value per
+// integrator, rounded up, floored at 1.  The bounds printed in the P lines are these x 10.
+//   energy            max_t |E(t)-E(0)| / (accuracy * T * scale)        scenarios 0, 2 (unconstrained, conservative)
+//   energyConstrained the same with one workless constraint              scenario 1
+//   momentum          max(|dP_lin|/p, |dP_ang|/(p L)) / (accuracy * T)   scenario 2 (free-floating, internal forces)
+//   monotone          max(E_{i+1}-E_i, E_end-E_0) / (accuracy * T * scale)   scenario 3 (dampers)
+//   bushing           max_t |E+dissipated - (E+dissipated)(0)| / (accuracy * T * scale)   scenario 4
+struct Consts { double energy, energyConstrained, momentum, monotone, bushing; };
 static const Consts MEASURED[NINTEG] = {
-    /*RKM */ {1, 1, 1}, /*RKF */ {1, 1, 1}, /*RK3 */ {1, 1, 1}, /*RK2 */ {1, 1, 1},
-    /*Verlet*/ {1, 1, 1}, /*CPodes*/ {1, 1, 1}, /*Euler*/ {1, 1, 1}, /*SEE2*/ {1, 1, 1}};
+    /*RungeKuttaMerson  */ {11, 22, 6.7, 4.4, 3.2},
+    /*RungeKuttaFeldberg*/ {63, 280, 120, 140, 7.3},
+    /*RungeKutta3       */ {6.1, 4.2, 1, 1, 1.8},
+    /*RungeKutta2       */ {2.7, 1, 1.2, 1, 1},
+    /*Verlet            */ {920, 300, 4200, 36, 150},
+    /*CPodes            */ {50, 48, 70, 5, 9.2},
+    /*ExplicitEuler     */ {1100, 1100, 670, 300, 440},
+    /*SemiExplicitEuler2*/ {220, 270, 460, 220, 68}};
 
 struct Model {
     MultibodySystem sys; SimbodyMatterSubsystem matter; GeneralForceSubsystem forces;
@@ -58,6 +69,7 @@ static const char* MOB[] = {"Pin", "Ball", "Slider", "Universal", "Free", "Cylin
 
 static void runCase(uint64_t caseSeed) {
     vh::Rng r(caseSeed);
+    if (std::getenv("C11_TRACE")) std::fprintf(stderr, "case %llu\n", (unsigned long long)caseSeed);
     const int scn = r.below(5);
     const int integ = r.below(NINTEG);
     // accuracies 1e-3 .. 1e-7 (first-order methods and the fixed-order-2 methods only down to what is affordable)
@@ -81,7 +93,7 @@ static void runCase(uint64_t caseSeed) {
         Transform XPF = rX(r, r.below(3)), XBM = rX(r, r.below(3));
         int type;
         if ((floating && i == 0) || scn == 4) type = 4;             // Free base; bushing scenario: Free bodies
-        else { type = r.below(8); if (type == 7 && r.below(3)) type = 0; if (type == 4 && scn != 2 && r.below(2)) type = 1; }
+        else { type = r.below(8); if (type == 6) type = 1;   /* Gimbal: its Euler singularity can be reached along a trajectory */ if (type == 7 && (r.below(3) || scn == 1)) type = 0; if (type == 4 && scn != 2 && r.below(2)) type = 1; }
         MobilizedBody mb;
         MobilizedBody& par = M.bodies[p];
         switch (type) {
@@ -134,7 +146,7 @@ static void runCase(uint64_t caseSeed) {
     }
     // ---- state
     State s = sys.realizeTopology();
-    bool euler = r.below(4) == 0;
+    const bool euler = false;   // Euler-angle charts of Ball/Free can reach their singularity along a trajectory
     matter.setUseEulerAngles(s, euler);
     sys.realizeModel(s);
     auto setState = [&](State& st, vh::Rng rr) {      // note: rr by value -> same numbers every time it is called
@@ -159,7 +171,7 @@ static void runCase(uint64_t caseSeed) {
     int ncons = 0;
     if (scn == 1) {
         sys.realize(s, Stage::Position);
-        int want = 1 + r.below(2);
+        int want = 1;       // one constraint: two random ones are too often (nearly) redundant or singular along the motion
         for (int c = 0; c < want; ++c) {
             int a = r.below(nb + 1), b = 1 + r.below(nb);
             if (a == b) continue;
@@ -185,12 +197,21 @@ static void runCase(uint64_t caseSeed) {
         try { sys.project(s, 1e-10); } catch (const std::exception&) { ncons = -1; }
     }
     const std::string kind = scn == 1 ? "energyC" : floating ? "energyF" : "energy";
+    if (s.getNU() == 0) {   // nothing can move (all Welds).  (CPodesIntegrator segfaults on a system without states: not C11's subject.)
+        vh::Line in0 = vh::I(kind); in0.s(std::to_string((unsigned long long)caseSeed)).i(scn).i(integ).i(accExp).i(0).emit();
+        vh::O("ke").d(0).emit(); { vh::Line L = vh::O("mom"); for (int k = 0; k < 6; ++k) L.d(0); L.emit(); }
+        if (kind != "energyC") vh::O("power").d(0).emit();
+        if (kind == "energyF") { vh::Line L = vh::O("momrate"); for (int k = 0; k < 6; ++k) L.d(0); L.emit(); }
+        vh::D("skipped.noMobilities");
+        return;
+    }
 
     // ---- simulate, sampling energy and momentum at report times
     const double T = r.range(1.0, 2.5);
     const int NREP = 25;
     std::unique_ptr<Integrator> ig(makeIntegrator(integ, sys));
     ig->setAccuracy(acc);
+    ig->setInternalStepLimit(20000);        // a trajectory that needs more is skipped (tagged), not judged
     std::vector<double> E, KEv, PEv, Dv; std::vector<SpatialVec> Pv;
     bool failed = ncons < 0; std::string failWhat;
     double maxR = 1;
@@ -206,12 +227,20 @@ static void runCase(uint64_t caseSeed) {
     State finalState;
     if (!failed) {
         try {
-            TimeStepper ts(sys, *ig);
-            ts.initialize(s);
+            // drive the Integrator directly: TimeStepper swallows ReachedStepLimit
+            ig->initialize(s);
             sample(ig->getState());
-            for (int i = 1; i <= NREP; ++i) { ts.stepTo(T * i / NREP); sample(ig->getState()); }
-            finalState = ig->getState();
-            sys.realize(finalState, Stage::Acceleration);
+            for (int i = 1; i <= NREP && !failed; ++i) {
+                const double tRep = T * i / NREP;
+                for (;;) {
+                    Integrator::SuccessfulStepStatus st = ig->stepTo(tRep);
+                    if (st == Integrator::ReachedReportTime) break;
+                    if (st == Integrator::ReachedStepLimit) { failed = true; failWhat = "stepLimit"; break; }
+                    if (st == Integrator::EndOfSimulation) { failed = true; failWhat = "endOfSimulation"; break; }
+                }
+                if (!failed) sample(ig->getState());
+            }
+            if (!failed) { finalState = ig->getState(); sys.realize(finalState, Stage::Acceleration); }
         } catch (const std::exception& e) { failed = true; failWhat = e.what(); }
     }
     // ---- record
@@ -222,9 +251,8 @@ static void runCase(uint64_t caseSeed) {
         vh::O("ke").d(0).emit(); { vh::Line L = vh::O("mom"); for (int k = 0; k < 6; ++k) L.d(0); L.emit(); }
         if (kind != "energyC") vh::O("power").d(0).emit();
         if (kind == "energyF") { vh::Line L = vh::O("momrate"); for (int k = 0; k < 6; ++k) L.d(0); L.emit(); }
-        vh::D(std::string("skipped.") + (ncons < 0 ? "projectFailed" : "integratorThrew"));
-        // an integrator that cannot finish a smooth conservative problem is reported, with its own key
-        if (ncons >= 0) vh::P("integration_completes", std::string("traj.completes.") + INTEG_NAMES[integ], 1, 0);
+        vh::D(std::string("skipped.") + (ncons < 0 ? "projectFailed" : (failWhat == "stepLimit" ? std::string("stepLimit.") : std::string("integratorThrew.")) + INTEG_NAMES[integ]));
+        if (std::getenv("C11_TRACE")) std::fprintf(stderr, "  threw: %s\n", failWhat.c_str());
         return;
     }
     const State& fs = finalState;
@@ -258,6 +286,7 @@ static void runCase(uint64_t caseSeed) {
     vh::D(euler ? "angles.euler" : "angles.quaternion");
     for (auto& t : M.tags) vh::D(t);
 
+    if (std::getenv("C11_DUMP")) for (size_t i = 0; i < E.size(); ++i) std::fprintf(stderr, "  t%02d E=%.12g KE=%.6g PE=%.6g D=%.6g |P|=%.6g\n", (int)i, E[i], KEv[i], PEv[i], Dv[i], Pv[i][1].norm());
     // ---- trajectory predicates
     const std::string IN = INTEG_NAMES[integ];
     double keMax = 0, peSpan = 0;
@@ -266,7 +295,8 @@ static void runCase(uint64_t caseSeed) {
     const Consts& C = MEASURED[integ];
     if (scn <= 2) {
         double drift = 0; for (double e : E) drift = std::max(drift, std::abs(e - E[0]));
-        vh::P("energy_drift_le_c_acc_T_scale", "traj.energy." + IN, drift / (acc * T * scale), 10 * C.energy);
+        vh::P("energy_drift_le_c_acc_T_scale", std::string("traj.energy.") + (scn == 1 ? "constrained." : "") + IN, drift / (acc * T * scale),
+              10 * (scn == 1 ? C.energyConstrained : C.energy));
     }
     if (scn == 2) {
         double pl = std::sqrt(2 * keMax * Mtot) + 1e-3, pa = pl * maxR;
@@ -277,12 +307,12 @@ static void runCase(uint64_t caseSeed) {
     if (scn == 3) {
         double up = 0; for (size_t i = 1; i < E.size(); ++i) up = std::max(up, E[i] - E[i - 1]);
         vh::P("energy_nonincreasing_with_dampers", "traj.monotone." + IN, up / (acc * T * scale), 10 * C.monotone);
-        vh::P("energy_ends_below_start", "traj.dissipates." + IN, (E.back() - E[0]) / (acc * T * scale), 10 * C.energy);
+        vh::P("energy_ends_below_start", "traj.dissipates." + IN, (E.back() - E[0]) / (acc * T * scale), 10 * C.monotone);
     }
     if (scn == 4) {
         double drift = 0, up = 0;
         for (size_t i = 0; i < E.size(); ++i) { drift = std::max(drift, std::abs(E[i] + Dv[i] - E[0] - Dv[0])); if (i) up = std::max(up, Dv[i - 1] - Dv[i]); }
-        vh::P("energy_plus_dissipated_constant", "traj.bushing.account." + IN, drift / (acc * T * scale), 10 * C.energy);
+        vh::P("energy_plus_dissipated_constant", "traj.bushing.account." + IN, drift / (acc * T * scale), 10 * C.bushing);
         vh::P("dissipated_energy_nondecreasing", "traj.bushing.monotone." + IN, up / (acc * T * scale), 10 * C.monotone);
     }
 }
